@@ -39,11 +39,9 @@ theorem no_pool_wide_drop_when_disabled (U : Bytes → Tx) (p : Pool) (t : Tx) (
 /-! ### tie by translation: the source's own leaf logic (regenerated into SV/Generated/Funcs.lean on every run) IS the model's -/
 theorem source_threshold_tests_are_the_models (p : Pool) :
     p.exceeded =
-      Gen.poolExceeded (Gen.tooManyBytes (clampNat p.numBytes) p.cfg.numBytesThreshold)
-        (Gen.tooManySenders (clampNat p.cntSenders) p.cfg.countThreshold)
-        (Gen.tooManyTxs (clampNat p.cntTx) p.cfg.countThreshold) := GenProofs.poolExceeded_eq p
+      Gen.poolExceeded (cache_areThereTooManyBytes := (Gen.tooManyBytes (cache_NumBytes := (clampNat p.numBytes)) (cache_config_NumBytesThreshold := p.cfg.numBytesThreshold))) (cache_areThereTooManySenders := (Gen.tooManySenders (cache_CountSenders := (clampNat p.cntSenders)) (cache_config_CountThreshold := p.cfg.countThreshold))) (cache_areThereTooManyTxs := (Gen.tooManyTxs (cache_CountTx := (clampNat p.cntTx)) (cache_config_CountThreshold := p.cfg.countThreshold))) := GenProofs.poolExceeded_eq p
 theorem source_sender_limit_test_is_the_models (cfg : Config) (l : List Tx) :
-    senderExceeded cfg l = Gen.senderExceeded cfg.numBytesPerSender cfg.countPerSender (listBytes l) l.length :=
+    senderExceeded cfg l = Gen.senderExceeded (listForSender_constraints_maxNumBytes := cfg.numBytesPerSender) (listForSender_constraints_maxNumTxs := cfg.countPerSender) (listForSender_totalBytes_Get := (listBytes l)) (listForSender_countTx := l.length) :=
   GenProofs.senderExceeded_eq cfg l
 
 /-- for EVERY configuration accepted by `NewTxCache` (the validity test is translated from `ConfigSourceMe.verify`, the bounds
